@@ -7,15 +7,22 @@ From PyIpmi Require Import Lib.Res Lib.Bytes Lib.Prog Model.ApiShape Model.Codec
 Import ListNotations.
 Open Scope N_scope.
 
-(* membership of the regenerated operations in the class *)
-Lemma all_classified : forallb (classified_or_downgraded api_ops) api_ops = true.
-Proof. vm_compute. reflexivity. Qed.
+(* the class theorem, instantiated for the members of the class in THIS run's regenerated list *)
+Lemma class_members_propagate o : In o (filter (simple_checked api_ops) api_ops) ->
+  forall I rs k rp cc out reqs sl rest, cc <> 0 ->
+  replay (op_prog api_ops o I) rs [] [] = (out, reqs, sl, rest) ->
+  nth_error rs k = Some rp -> carries rp cc -> (k < length reqs)%nat ->
+  out = Err (CCError cc) /\ length reqs = S k /\ rest = skipn (S k) rs.
+Proof.
+  intros Hin I rs k rp cc out reqs sl rest Hcc Hr Hn Hc Hl.
+  apply filter_In in Hin as [_ Hs].
+  exact (op_propagates api_ops o I rs k rp cc out reqs sl rest Hs Hcc Hr Hn Hc Hl).
+Qed.
 Lemma all_exclusive : forallb (exclusive api_ops) api_ops = true.
 Proof. vm_compute. reflexivity. Qed.
-
-Lemma classified_in o : In o api_ops ->
-  simple_checked api_ops o = true \/ handled o = true \/ tainted api_ops o = true.
-Proof. exact (classified_in_gen api_ops all_classified o). Qed.
+(* the class is not empty in this run *)
+Lemma class_nonempty : existsb (simple_checked api_ops) api_ops = true.
+Proof. vm_compute. reflexivity. Qed.
 
 (* the decoder leaves only the completion code set on error (from C02) *)
 Lemma decode_cc_only m f fs c rest : In m registry -> is_rsp m = true ->
